@@ -364,6 +364,40 @@ fn fam_zippy(o: &mut Out) {
     }
 }
 
+/// every option name `parse_defcfg` matches on - read from the source, so that deprecated spellings
+/// and newly added options are included - with boundary values, in a configuration that USES the
+/// value (chords v2, sequences, dynamic macros, overrides, mouse movement present): a value the
+/// option parser lets through reaches its consumer while the configuration is built
+fn fam_defcfg_consumers(o: &mut Out) {
+    let src = std::fs::read_to_string(format!("{}/parser/src/cfg/defcfg.rs", crate::c03::repo())).unwrap_or_default();
+    let mut names: Vec<String> = vec![];
+    for line in src.lines() {
+        let t = line.trim();
+        if !t.starts_with('"') || !(t.contains("=>") || t.ends_with('|')) {
+            continue;
+        }
+        for piece in t.split('|') {
+            let q = piece.trim();
+            if let Some(rest) = q.strip_prefix('"') {
+                if let Some(end) = rest.find('"') {
+                    let name = &rest[..end];
+                    if name.len() > 3 && name.contains('-') && name.chars().all(|c| c.is_ascii_lowercase() || c.is_ascii_digit() || c == '-') && !names.iter().any(|n| n == name) {
+                        names.push(name.to_string());
+                    }
+                }
+            }
+        }
+    }
+    let body = "(defsrc a b c d e)\n(deflayer base a b sldr (dynamic-macro-record 1) (movemouse-accel-up 1 100 1 5))\n(defvirtualkeys v1 z)\n(defseq v1 (a b))\n(defchordsv2 (a b) c 30 all-released ())\n(defoverrides (lsft a) (b))\n";
+    for name in &names {
+        for v in ["0", "1", "4", "5", "65535", "yes", "no"] {
+            let pre = if name == "concurrent-tap-hold" { String::new() } else { "concurrent-tap-hold yes ".to_string() };
+            let text = format!("(defcfg {pre}{name} {v})\n{body}");
+            o.lines.push(case_line('s', "cov:defcfg-consumer", &text, &[]));
+        }
+    }
+}
+
 pub fn gen_extra(tier: &str, seed: u64) -> Vec<String> {
     let mut r = Rng::new(seed ^ 0xC03_C0F);
     let mut o = Out { r: &mut r, lines: vec![] };
@@ -378,6 +412,7 @@ pub fn gen_extra(tier: &str, seed: u64) -> Vec<String> {
         fam_sequences(&mut o);
         fam_switch(&mut o);
         fam_defcfg(&mut o);
+        fam_defcfg_consumers(&mut o);
         fam_template_budget(&mut o);
         fam_chords_v2(&mut o);
         fam_zippy(&mut o);
